@@ -85,8 +85,13 @@ def layerBNames : List String :=
    "vt420", "wy99-ansi", "wy99a-ansi", "xfce", "xterm", "xterm-256color", "xterm-88color", "xterm-direct", "xterm-ghostty",
    "xterm-kitty"]
 
-/-- the entries outside, by reason -/
+/-- the corner-trick entries (auto-margin terminals with `ich1` and no way to switch auto-margin off) Layer B is proved for:
+    the class `CornerLike` -/
+def cornerNames : List String := ["cygwin"]
+
+/-- the entries outside both classes, by reason -/
 def cornerTrickNames : List String := ["beterm", "cygwin", "sun", "sun-color"]
+def cornerOutsideNames : List String := ["beterm", "sun", "sun-color"]
 def nonEcmaNames : List String := ["hpterm", "vt52", "wy50", "wy60"]
 
 set_option maxRecDepth 100000 in
@@ -103,12 +108,25 @@ is shown green / white on black there, and that is what `penOf` says (`opSel`, `
 the four corner-trick entries; hpterm, vt52, wy50, wy60 do not speak ECMA-48. -/
 theorem db_layerB : (Gen.db.all fun e => XtermLike e == layerBNames.contains e.name) = true := by decide +kernel
 
-/-- the eight entries outside the class are exactly the two named groups -/
-theorem db_outside : (Gen.db.all fun e => XtermLike e ||
-    (cornerTrickNames ++ nonEcmaNames).contains e.name) = true ∧
-    (Gen.db.all fun e => cornerTrickNames.contains e.name ==
-      (e.autoMargin && e.disableAutoMargin.isEmpty && !e.insertChar.isEmpty)) = true := by
-  constructor <;> decide +kernel
+set_option maxRecDepth 100000 in
+/-- exactly the entries `cornerNames` of the built-in database are in the class `CornerLike` -/
+theorem db_cornerLike : (Gen.db.all fun e => CornerLike e == cornerNames.contains e.name) = true := by decide +kernel
+
+set_option maxRecDepth 100000 in
+/-- the entries outside both classes are exactly the two named groups; the corner-trick entries (inside or outside) are exactly the
+entries on which drawCell uses the trick; no entry is in both classes -/
+theorem db_outside : (Gen.db.all fun e => (XtermLike e || CornerLike e) !=
+    (cornerOutsideNames ++ nonEcmaNames).contains e.name) = true ∧
+    (Gen.db.all fun e => cornerTrickNames.contains e.name == usesCornerTrick e) = true ∧
+    (Gen.db.all fun e => !(XtermLike e && CornerLike e)) = true ∧
+    (Gen.db.all fun e => cornerTrickNames.contains e.name == (cornerNames ++ cornerOutsideNames).contains e.name) = true := by
+  refine ⟨?_, ?_, ?_, ?_⟩ <;> decide +kernel
+
+theorem db_cornerLike' : ∀ e ∈ Gen.db, e.name ∈ cornerNames → CornerLike e = true := by
+  intro e he hn
+  have := List.all_eq_true.mp db_cornerLike e he
+  have hc : cornerNames.contains e.name = true := by simpa using hn
+  rw [hc] at this; simpa using this
 
 theorem db_layerB' : ∀ e ∈ Gen.db, e.name ∈ layerBNames → XtermLike e = true := by
   intro e he hn
@@ -210,18 +228,21 @@ def after (c : DrawCfg) (rc : RenderCfg) (w h : Int) (e0 : Term) (ops : List Scr
 theorem after_wd (w h : Int) (e0 : Term) (ops : List ScrOp) : (after c rc w h e0 ops).wd = (World.init w h).run c ops :=
   run_wd c rc ops _
 
-/-- **Rep after every history** (the simulation invariant, usable between Shows) -/
+/-- **Rep after every history** (the simulation invariant, usable between Shows); `hsafe`: Layer A's side condition for the
+bottom-right corner trick held at every draw (vacuous on terminals that do not use the trick, `World.SafeRun.of_plain`) -/
 theorem rep_after_partial (hc : CfgB c rc) (w h : Int) (hs : SizeOk w h) (e0 : Term) (he : Good c.rw e0) (hq : Quiet rc e0)
-    (hw : (e0.grid.w : Int) = w) (hh : (e0.grid.h : Int) = h) (ops : List ScrOp) (hv : ∀ op ∈ ops, op.Valid c ∧ OpB c op) :
+    (hw : (e0.grid.w : Int) = w) (hh : (e0.grid.h : Int) = h) (ops : List ScrOp) (hv : ∀ op ∈ ops, op.Valid c ∧ OpB c op)
+    (hsafe : World.SafeRun c (World.init w h) ops) :
     Rep c rc (after c rc w h e0 ops).e (after c rc w h e0 ops).wd.t :=
-  rep_reach hc ops _ (init_inv hc.rwOk w h) (init_bwinv w h hs) (init_rep w h e0 he hq hw hh) hv
+  rep_reach hc ops _ (init_inv hc.rwOk w h) (init_bwinv w h hs) (init_rep w h e0 he hq hw hh) hv hsafe
 
 /-- **C09, draw histories**: whatever the history, the strict tokenizer of the reference emulator has accepted every
 byte the model wrote (no complaint) and the stream ends in the ground state (every control sequence is complete). -/
 theorem output_wellformed_partial (hc : CfgB c rc) (w h : Int) (hs : SizeOk w h) (e0 : Term) (he : Good c.rw e0) (hq : Quiet rc e0)
-    (hw : (e0.grid.w : Int) = w) (hh : (e0.grid.h : Int) = h) (ops : List ScrOp) (hv : ∀ op ∈ ops, op.Valid c ∧ OpB c op) :
+    (hw : (e0.grid.w : Int) = w) (hh : (e0.grid.h : Int) = h) (ops : List ScrOp) (hv : ∀ op ∈ ops, op.Valid c ∧ OpB c op)
+    (hsafe : World.SafeRun c (World.init w h) ops) :
     (after c rc w h e0 ops).e.malformed = [] ∧ (after c rc w h e0 ops).e.st = .ground :=
-  let R := rep_after_partial hc w h hs e0 he hq hw hh ops hv
+  let R := rep_after_partial hc w h hs e0 he hq hw hh ops hv hsafe
   ⟨R.good.mal, R.good.st⟩
 
 /-- what the emulator grid shows for the cells Layer A's `Displays` speaks about: every clean unlocked cell (every cell the
@@ -315,42 +336,54 @@ theorem sync_size (hrw : RwOk c.rw) {wd : World} (inv : WInv c wd) :
   obtain ⟨_, _, e1, e2, _⟩ := (prep_ok hrw wd.sw.s wd.sw.ttyw wd.sw.ttyh inv.buf inv.fini inv.clear).1
   rw [e]; simp only [(draw_size _).1, (draw_size _).2, e1, e2]; exact ⟨trivial, trivial⟩
 
+theorem bwinv_after (hc : CfgB c rc) (w h : Int) (hs : SizeOk w h) (e0 : Term) (ops : List ScrOp)
+    (hv : ∀ op ∈ ops, op.Valid c ∧ OpB c op) (hsafe : World.SafeRun c (World.init w h) ops) :
+    BWInv c (after c rc w h e0 ops).wd := by
+  have : ∀ (os : List ScrOp) (b0 : BWorld), WInv c b0.wd → BWInv c b0.wd → (∀ op ∈ os, op.Valid c ∧ OpB c op) →
+      World.SafeRun c b0.wd os → BWInv c (b0.run c rc os).wd := by
+    intro os
+    induction os with
+    | nil => intro b0 _ h _ _; exact h
+    | cons o os ih =>
+      intro b0 i0 h0 hv0 hs0
+      have ho := hv0 o (List.mem_cons_self ..)
+      exact ih (b0.step c rc o) (step_inv_c hc.rwOk hc.walk i0 o ho.1 hs0.1) (bwinv_step i0 h0 o ho.2)
+        (fun o' h' => hv0 o' (List.mem_cons_of_mem _ h')) hs0.2
+  exact this ops _ (init_inv hc.rwOk w h) (init_bwinv w h hs) hv hsafe
+
 /-- **Show is faithful, at the level of bytes.**  After any valid history, if nothing outside the library has disturbed
 the display since it was last completely repainted, or the window size changed and this Show notices it: the reference
 emulator, having interpreted every byte the model wrote, shows in every unlocked visited cell exactly the payload last set
 there with the SGR state its style denotes (wide runes with their continuation cell, a blank for a wide rune in the last
-column), the cursor is at the requested cell and visible — or invisible if that cell is off-screen. -/
+column), the cursor is at the requested cell and visible — or invisible if that cell is off-screen.  On a terminal that needs
+the bottom-right corner trick this includes the bottom-right cell (written one column early and pushed into place with `ich1`);
+`hsafe` is Layer A's side condition along the history and for this Show (at least two columns, no locked cell in the last row
+whenever the library draws; vacuous on terminals that do not use the trick). -/
 theorem show_faithful_bytes_partial (hc : CfgB c rc) (w h : Int) (hs : SizeOk w h) (e0 : Term) (he : Good c.rw e0) (hq : Quiet rc e0)
-    (hw : (e0.grid.w : Int) = w) (hh : (e0.grid.h : Int) = h) (ops : List ScrOp) (hv : ∀ op ∈ ops, op.Valid c ∧ OpB c op) :
+    (hw : (e0.grid.w : Int) = w) (hh : (e0.grid.h : Int) = h) (ops : List ScrOp) (hv : ∀ op ∈ ops, op.Valid c ∧ OpB c op)
+    (hsafe : World.SafeRun c (World.init w h) (ops ++ [.show])) :
     let b := after c rc w h e0 ops
     (b.wd.trusted = true ∨ ¬ (b.wd.sw.ttyw = b.wd.sw.s.w ∧ b.wd.sw.ttyh = b.wd.sw.s.h)) →
       DisplaysBytes c rc (b.step c rc .show) := by
   intro b htr
+  obtain ⟨hs1, hs2⟩ := safeRun_split ops _ .show hsafe
   have hvA : ∀ op ∈ ops, op.Valid c := fun o ho => (hv o ho).1
   have hwd : b.wd = (World.init w h).run c ops := after_wd w h e0 ops
-  have inv : WInv c b.wd := by rw [hwd]; exact reach_inv hc.rwOk hc.noCorner w h ops hvA
-  have bi : BWInv c b.wd := by
-    have : ∀ (os : List ScrOp) (b0 : BWorld), WInv c b0.wd → BWInv c b0.wd → (∀ op ∈ os, op.Valid c ∧ OpB c op) →
-        BWInv c (b0.run c rc os).wd := by
-      intro os
-      induction os with
-      | nil => intro b0 _ h _; exact h
-      | cons o os ih =>
-        intro b0 i0 h0 hv0
-        have ho := hv0 o (List.mem_cons_self ..)
-        exact ih (b0.step c rc o) (step_inv hc.rwOk hc.noCorner i0 o ho.1) (bwinv_step i0 h0 o ho.2)
-          (fun o' h' => hv0 o' (List.mem_cons_of_mem _ h'))
-    exact this ops _ (init_inv hc.rwOk w h) (init_bwinv w h hs) hv
-  have R := rep_after_partial hc w h hs e0 he hq hw hh ops hv
-  have R' := rep_step hc inv bi R .show trivial
-  have inv' : WInv c (b.step c rc .show).wd := (show_step hc.rwOk hc.noCorner inv).1
-  have D := (show_step hc.rwOk hc.noCorner inv).2 htr
+  rw [← hwd] at hs2
+  have inv : WInv c b.wd := by rw [hwd]; exact reach_inv_c hc.rwOk hc.walk w h ops hvA hs1
+  have bi : BWInv c b.wd := bwinv_after hc w h hs e0 ops hv hs1
+  have R := rep_after_partial hc w h hs e0 he hq hw hh ops hv hs1
+  have R' := rep_step hc inv bi R .show trivial hs2
+  have inv' : WInv c (b.step c rc .show).wd := (show_step_c hc.rwOk hc.walk inv hs2).1
+  have D := (show_step_c hc.rwOk hc.walk inv hs2).2 htr
   exact displaysBytes_of hc inv' R' D (show_size inv)
 
 /-- **Sync is faithful at the level of bytes, from arbitrary display contents** (no trust hypothesis). -/
 theorem sync_faithful_bytes_partial (hc : CfgB c rc) (w h : Int) (hs : SizeOk w h) (e0 : Term) (he : Good c.rw e0) (hq : Quiet rc e0)
-    (hw : (e0.grid.w : Int) = w) (hh : (e0.grid.h : Int) = h) (ops : List ScrOp) (hv : ∀ op ∈ ops, op.Valid c ∧ OpB c op) :
+    (hw : (e0.grid.w : Int) = w) (hh : (e0.grid.h : Int) = h) (ops : List ScrOp) (hv : ∀ op ∈ ops, op.Valid c ∧ OpB c op)
+    (hsafe : World.SafeRun c (World.init w h) (ops ++ [.sync])) :
     DisplaysBytes c rc ((after c rc w h e0 ops).step c rc .sync) := by
+  obtain ⟨hs1, hs2⟩ := safeRun_split ops _ .sync hsafe
   have hv' : ∀ op ∈ ops ++ [ScrOp.sync], op.Valid c ∧ OpB c op := by
     intro o ho; rcases List.mem_append.1 ho with ho | ho
     · exact hv o ho
@@ -358,10 +391,11 @@ theorem sync_faithful_bytes_partial (hc : CfgB c rc) (w h : Int) (hs : SizeOk w 
   have hvA : ∀ op ∈ ops, op.Valid c := fun o ho => (hv o ho).1
   have e : (after c rc w h e0 ops).step c rc .sync = after c rc w h e0 (ops ++ [ScrOp.sync]) := by
     simp [after, BWorld.run, List.foldl_append]
-  have inv : WInv c (after c rc w h e0 ops).wd := by rw [after_wd]; exact reach_inv hc.rwOk hc.noCorner w h ops hvA
-  have R := rep_after_partial hc w h hs e0 he hq hw hh (ops ++ [ScrOp.sync]) hv'
+  rw [← after_wd (c := c) (rc := rc) w h e0 ops] at hs2
+  have inv : WInv c (after c rc w h e0 ops).wd := by rw [after_wd]; exact reach_inv_c hc.rwOk hc.walk w h ops hvA hs1
+  have R := rep_after_partial hc w h hs e0 he hq hw hh (ops ++ [ScrOp.sync]) hv' hsafe
   rw [← e] at R
-  exact displaysBytes_of hc (sync_step hc.rwOk hc.noCorner inv).1 R (sync_step hc.rwOk hc.noCorner inv).2.1
+  exact displaysBytes_of hc (sync_step_c hc.rwOk hc.walk inv hs2).1 R (sync_step_c hc.rwOk hc.walk inv hs2).2.1
     (sync_size hc.rwOk inv)
 
 
@@ -375,7 +409,8 @@ entries. -/
 theorem cfgB_of_xtermlike (hx : XtermLike rc.ti = true) (hd : rc.d = derive rc.ti) (hfit : FitOk rc)
     (hrw : RwOk c.rw) (hrwB : RwB c.rw) (hp : Utf8Payload c) (hpl : c.Plain) (hh : c.hasHide = !rc.ti.hideCursor.isEmpty) :
     CfgB c rc :=
-  { rwOk := hrw, rwB := hrwB, pay := hp, noCorner := hpl, fx := xl_capsFx c (capsOk_of_xl hx) hd hfit hh }
+  { rwOk := hrw, rwB := hrwB, pay := hp, walk := hpl.walk, fx := xl_capsFx c (capsOk_of_xl hx) hd hfit hh,
+    ich := fun h => by rw [hpl.ct] at h; cases h }
 
 /-- the draw configuration of a terminal description in a UTF-8 locale with the regenerated width table, as the driver
 builds it (Driver/Draw.lean `mkCfgs`); `lg`/`wg`/`fz` = which repairs of drawCell / Fill the tree under test has -/
@@ -390,6 +425,9 @@ def drawCfgOf (ti : Terminfo) (lg wg fz : Bool) : DrawCfg :=
 def renderCfgOf (ti : Terminfo) (tc : Bool) (fit fit0 : Nat → Nat) : RenderCfg :=
   { ti := ti, d := derive ti, truecolor := tc && !(ti.setFgBgRGB.isEmpty && ti.setFgRGB.isEmpty && ti.setBgRGB.isEmpty),
     fit := fit, fit0 := fit0 }
+
+theorem plain_of_ti (ti : Terminfo) (hx : XtermLike ti = true) (lg wg fz : Bool) (hwg : wg = true → lg = true) :
+    (drawCfgOf ti lg wg fz).Plain := ⟨xl_noCorner hx, hwg⟩
 
 theorem cfgB_of_ti (ti : Terminfo) (hx : XtermLike ti = true) (lg wg fz tc : Bool) (fit fit0 : Nat → Nat)
     (hwg : wg = true → lg = true) (hfit : FitOk (renderCfgOf ti tc fit fit0)) :
@@ -425,6 +463,7 @@ theorem xl_show_faithful_bytes (w h : Int) (hs : SizeOk w h) (e0 : Term) (he : G
       DisplaysBytes (drawCfgOf ti lg wg fz) (renderCfgOf ti tc fit fit0)
         (b.step (drawCfgOf ti lg wg fz) (renderCfgOf ti tc fit fit0) .show) :=
   show_faithful_bytes_partial (cfgB_of_ti ti hx lg wg fz tc fit fit0 hwg hfit) w h hs e0 he hq hw hh ops hv
+    (World.SafeRun.of_plain (plain_of_ti ti hx lg wg fz hwg) _ _)
 
 /-- **Sync is faithful at the level of bytes on every `XtermLike` terminal, from arbitrary display contents** -/
 theorem xl_sync_faithful_bytes (w h : Int) (hs : SizeOk w h) (e0 : Term) (he : Good rwClip e0) (hq : Quiet (renderCfgOf ti tc fit fit0) e0)
@@ -434,6 +473,7 @@ theorem xl_sync_faithful_bytes (w h : Int) (hs : SizeOk w h) (e0 : Term) (he : G
       ((after (drawCfgOf ti lg wg fz) (renderCfgOf ti tc fit fit0) w h e0 ops).step (drawCfgOf ti lg wg fz)
         (renderCfgOf ti tc fit fit0) .sync) :=
   sync_faithful_bytes_partial (cfgB_of_ti ti hx lg wg fz tc fit fit0 hwg hfit) w h hs e0 he hq hw hh ops hv
+    (World.SafeRun.of_plain (plain_of_ti ti hx lg wg fz hwg) _ _)
 
 /-- **C09 on every `XtermLike` terminal**: over every draw history the strict tokenizer accepts every byte and the stream
 ends in the ground state -/
@@ -443,6 +483,7 @@ theorem xl_output_wellformed (w h : Int) (hs : SizeOk w h) (e0 : Term) (he : Goo
     (after (drawCfgOf ti lg wg fz) (renderCfgOf ti tc fit fit0) w h e0 ops).e.malformed = [] ∧
       (after (drawCfgOf ti lg wg fz) (renderCfgOf ti tc fit fit0) w h e0 ops).e.st = .ground :=
   output_wellformed_partial (cfgB_of_ti ti hx lg wg fz tc fit fit0 hwg hfit) w h hs e0 he hq hw hh ops hv
+    (World.SafeRun.of_plain (plain_of_ti ti hx lg wg fz hwg) _ _)
 
 /-- the simulation invariant after every history, on every `XtermLike` terminal -/
 theorem xl_rep_after (w h : Int) (hs : SizeOk w h) (e0 : Term) (he : Good rwClip e0) (hq : Quiet (renderCfgOf ti tc fit fit0) e0)
@@ -452,6 +493,7 @@ theorem xl_rep_after (w h : Int) (hs : SizeOk w h) (e0 : Term) (he : Good rwClip
       (after (drawCfgOf ti lg wg fz) (renderCfgOf ti tc fit fit0) w h e0 ops).e
       (after (drawCfgOf ti lg wg fz) (renderCfgOf ti tc fit fit0) w h e0 ops).wd.t :=
   rep_after_partial (cfgB_of_ti ti hx lg wg fz tc fit fit0 hwg hfit) w h hs e0 he hq hw hh ops hv
+    (World.SafeRun.of_plain (plain_of_ti ti hx lg wg fz hwg) _ _)
 end
 
 /-- **the headline for the built-in database**: for each of the 41 entries of the class (`layerBNames`) Show is faithful at the
@@ -485,6 +527,111 @@ theorem db_output_wellformed : ∀ e ∈ Gen.db, e.name ∈ layerBNames →
         (after (drawCfgOf e lg wg fz) (renderCfgOf e tc fit fit0) w h e0 ops).e.st = .ground :=
   fun e he hn lg wg fz tc fit fit0 hwg hfit w h hs e0 hg hq hw hh ops hv =>
     xl_output_wellformed e (db_layerB' e he hn) lg wg fz tc fit fit0 hwg hfit w h hs e0 hg hq hw hh ops hv
+
+/-! ### corner-trick terminals: the class `CornerLike` -/
+
+/-- **`CfgB` for every `CornerLike` terminal description** (the draw path uses the bottom-right insert-character trick, every
+string is in the class, `ich1` is ICH), for the configuration the driver builds -/
+theorem cfgB_of_cl (ti : Terminfo) (hx : CornerLike ti = true) (lg wg fz tc : Bool) (fit fit0 : Nat → Nat)
+    (hwg : wg = true → lg = true) (hfit : FitOk (renderCfgOf ti tc fit fit0)) :
+    CfgB (drawCfgOf ti lg wg fz) (renderCfgOf ti tc fit fit0) :=
+  { rwOk := rwClip_ok.1, rwB := rwClip_ok.2, pay := fun _ _ => rfl, walk := ⟨hwg⟩,
+    fx := xl_capsFx (drawCfgOf ti lg wg fz) (rc := renderCfgOf ti tc fit fit0) (capsOk_of_cl hx) rfl hfit rfl,
+    ich := fun _ => ichFx_of (drawCfgOf ti lg wg fz) (renderCfgOf ti tc fit fit0) (cl_ich hx) }
+
+theorem cl_cornerTrick (ti : Terminfo) (hx : CornerLike ti = true) (lg wg fz : Bool) : (drawCfgOf ti lg wg fz).cornerTrick = true :=
+  cl_corner hx
+
+section
+variable (ti : Terminfo) (hx : CornerLike ti = true) (lg wg fz tc : Bool) (fit fit0 : Nat → Nat)
+  (hwg : wg = true → lg = true) (hfit : FitOk (renderCfgOf ti tc fit fit0))
+include hx hwg hfit
+
+/-- **Show is faithful at the level of bytes on every `CornerLike` terminal, the bottom-right cell included.**  For every terminal
+description of the class (auto-margin terminal that cannot switch auto-margin off, with an insert-character string that is ICH,
+every other string in the standard forms), every variant of the draw path, every window size, every start state of the
+emulator and every history of valid operations in the Layer-B domain along which Layer A's side condition holds (`World.SafeRun`:
+whenever the library draws, the screen has at least two columns and no cell of its last row is locked): the reference emulator,
+fed exactly the bytes the byte-exact model writes — among them, for the bottom-right cell, `cup (w-2, h-1)`, the style block, the
+glyph, `cup (w-2, h-1)`, `ich1`, and the repaint of the cell that covers column `w-2` —, shows after Show in every unlocked visited
+cell, THE BOTTOM-RIGHT CELL INCLUDED, the payload last set there with the SGR state `penOf` of its style; the cursor is where
+requested and visible (or parked / hidden).  Nothing has scrolled: the cells of every other row are covered by the same statement. -/
+theorem cl_show_faithful_bytes (w h : Int) (hs : SizeOk w h) (e0 : Term) (he : Good rwClip e0) (hq : Quiet (renderCfgOf ti tc fit fit0) e0)
+    (hw : (e0.grid.w : Int) = w) (hh : (e0.grid.h : Int) = h) (ops : List ScrOp)
+    (hv : ∀ op ∈ ops, op.Valid (drawCfgOf ti lg wg fz) ∧ OpB (drawCfgOf ti lg wg fz) op)
+    (hsafe : World.SafeRun (drawCfgOf ti lg wg fz) (World.init w h) (ops ++ [.show])) :
+    let b := after (drawCfgOf ti lg wg fz) (renderCfgOf ti tc fit fit0) w h e0 ops
+    (b.wd.trusted = true ∨ ¬ (b.wd.sw.ttyw = b.wd.sw.s.w ∧ b.wd.sw.ttyh = b.wd.sw.s.h)) →
+      DisplaysBytes (drawCfgOf ti lg wg fz) (renderCfgOf ti tc fit fit0)
+        (b.step (drawCfgOf ti lg wg fz) (renderCfgOf ti tc fit fit0) .show) :=
+  show_faithful_bytes_partial (cfgB_of_cl ti hx lg wg fz tc fit fit0 hwg hfit) w h hs e0 he hq hw hh ops hv hsafe
+
+/-- **Sync is faithful at the level of bytes on every `CornerLike` terminal, from arbitrary display contents** -/
+theorem cl_sync_faithful_bytes (w h : Int) (hs : SizeOk w h) (e0 : Term) (he : Good rwClip e0) (hq : Quiet (renderCfgOf ti tc fit fit0) e0)
+    (hw : (e0.grid.w : Int) = w) (hh : (e0.grid.h : Int) = h) (ops : List ScrOp)
+    (hv : ∀ op ∈ ops, op.Valid (drawCfgOf ti lg wg fz) ∧ OpB (drawCfgOf ti lg wg fz) op)
+    (hsafe : World.SafeRun (drawCfgOf ti lg wg fz) (World.init w h) (ops ++ [.sync])) :
+    DisplaysBytes (drawCfgOf ti lg wg fz) (renderCfgOf ti tc fit fit0)
+      ((after (drawCfgOf ti lg wg fz) (renderCfgOf ti tc fit fit0) w h e0 ops).step (drawCfgOf ti lg wg fz)
+        (renderCfgOf ti tc fit fit0) .sync) :=
+  sync_faithful_bytes_partial (cfgB_of_cl ti hx lg wg fz tc fit fit0 hwg hfit) w h hs e0 he hq hw hh ops hv hsafe
+
+/-- **C09 on every `CornerLike` terminal**: over every draw history (side condition as above) the strict tokenizer accepts every
+byte — the `ich1` of the corner trick included — and the stream ends in the ground state -/
+theorem cl_output_wellformed (w h : Int) (hs : SizeOk w h) (e0 : Term) (he : Good rwClip e0) (hq : Quiet (renderCfgOf ti tc fit fit0) e0)
+    (hw : (e0.grid.w : Int) = w) (hh : (e0.grid.h : Int) = h) (ops : List ScrOp)
+    (hv : ∀ op ∈ ops, op.Valid (drawCfgOf ti lg wg fz) ∧ OpB (drawCfgOf ti lg wg fz) op)
+    (hsafe : World.SafeRun (drawCfgOf ti lg wg fz) (World.init w h) ops) :
+    (after (drawCfgOf ti lg wg fz) (renderCfgOf ti tc fit fit0) w h e0 ops).e.malformed = [] ∧
+      (after (drawCfgOf ti lg wg fz) (renderCfgOf ti tc fit fit0) w h e0 ops).e.st = .ground :=
+  output_wellformed_partial (cfgB_of_cl ti hx lg wg fz tc fit fit0 hwg hfit) w h hs e0 he hq hw hh ops hv hsafe
+
+/-- the simulation invariant after every history, on every `CornerLike` terminal -/
+theorem cl_rep_after (w h : Int) (hs : SizeOk w h) (e0 : Term) (he : Good rwClip e0) (hq : Quiet (renderCfgOf ti tc fit fit0) e0)
+    (hw : (e0.grid.w : Int) = w) (hh : (e0.grid.h : Int) = h) (ops : List ScrOp)
+    (hv : ∀ op ∈ ops, op.Valid (drawCfgOf ti lg wg fz) ∧ OpB (drawCfgOf ti lg wg fz) op)
+    (hsafe : World.SafeRun (drawCfgOf ti lg wg fz) (World.init w h) ops) :
+    Rep (drawCfgOf ti lg wg fz) (renderCfgOf ti tc fit fit0)
+      (after (drawCfgOf ti lg wg fz) (renderCfgOf ti tc fit fit0) w h e0 ops).e
+      (after (drawCfgOf ti lg wg fz) (renderCfgOf ti tc fit fit0) w h e0 ops).wd.t :=
+  rep_after_partial (cfgB_of_cl ti hx lg wg fz tc fit fit0 hwg hfit) w h hs e0 he hq hw hh ops hv hsafe
+end
+
+/-- **the headline for the corner-trick entries of the built-in database** (`cornerNames`): Show is faithful at the level of bytes,
+the bottom-right cell included, with no hypothesis on the terminal description; what is assumed of the history is Layer A's side
+condition `World.SafeRun` (decidable, `cornerSafeB`) -/
+theorem db_show_faithful_bytes_corner : ∀ e ∈ Gen.db, e.name ∈ cornerNames →
+    ∀ (lg wg fz tc : Bool) (fit fit0 : Nat → Nat), (wg = true → lg = true) → FitOk (renderCfgOf e tc fit fit0) →
+    ∀ (w h : Int), SizeOk w h → ∀ (e0 : Term), Good rwClip e0 → Quiet (renderCfgOf e tc fit fit0) e0 → (e0.grid.w : Int) = w → (e0.grid.h : Int) = h →
+    ∀ (ops : List ScrOp), (∀ op ∈ ops, op.Valid (drawCfgOf e lg wg fz) ∧ OpB (drawCfgOf e lg wg fz) op) →
+      World.SafeRun (drawCfgOf e lg wg fz) (World.init w h) (ops ++ [.show]) →
+      let b := after (drawCfgOf e lg wg fz) (renderCfgOf e tc fit fit0) w h e0 ops
+      (b.wd.trusted = true ∨ ¬ (b.wd.sw.ttyw = b.wd.sw.s.w ∧ b.wd.sw.ttyh = b.wd.sw.s.h)) →
+        DisplaysBytes (drawCfgOf e lg wg fz) (renderCfgOf e tc fit fit0)
+          (b.step (drawCfgOf e lg wg fz) (renderCfgOf e tc fit fit0) .show) :=
+  fun e he hn lg wg fz tc fit fit0 hwg hfit w h hs e0 hg hq hw hh ops hv hsafe =>
+    cl_show_faithful_bytes e (db_cornerLike' e he hn) lg wg fz tc fit fit0 hwg hfit w h hs e0 hg hq hw hh ops hv hsafe
+
+theorem db_sync_faithful_bytes_corner : ∀ e ∈ Gen.db, e.name ∈ cornerNames →
+    ∀ (lg wg fz tc : Bool) (fit fit0 : Nat → Nat), (wg = true → lg = true) → FitOk (renderCfgOf e tc fit fit0) →
+    ∀ (w h : Int), SizeOk w h → ∀ (e0 : Term), Good rwClip e0 → Quiet (renderCfgOf e tc fit fit0) e0 → (e0.grid.w : Int) = w → (e0.grid.h : Int) = h →
+    ∀ (ops : List ScrOp), (∀ op ∈ ops, op.Valid (drawCfgOf e lg wg fz) ∧ OpB (drawCfgOf e lg wg fz) op) →
+      World.SafeRun (drawCfgOf e lg wg fz) (World.init w h) (ops ++ [.sync]) →
+      DisplaysBytes (drawCfgOf e lg wg fz) (renderCfgOf e tc fit fit0)
+        ((after (drawCfgOf e lg wg fz) (renderCfgOf e tc fit fit0) w h e0 ops).step (drawCfgOf e lg wg fz)
+          (renderCfgOf e tc fit fit0) .sync) :=
+  fun e he hn lg wg fz tc fit fit0 hwg hfit w h hs e0 hg hq hw hh ops hv hsafe =>
+    cl_sync_faithful_bytes e (db_cornerLike' e he hn) lg wg fz tc fit fit0 hwg hfit w h hs e0 hg hq hw hh ops hv hsafe
+
+theorem db_output_wellformed_corner : ∀ e ∈ Gen.db, e.name ∈ cornerNames →
+    ∀ (lg wg fz tc : Bool) (fit fit0 : Nat → Nat), (wg = true → lg = true) → FitOk (renderCfgOf e tc fit fit0) →
+    ∀ (w h : Int), SizeOk w h → ∀ (e0 : Term), Good rwClip e0 → Quiet (renderCfgOf e tc fit fit0) e0 → (e0.grid.w : Int) = w → (e0.grid.h : Int) = h →
+    ∀ (ops : List ScrOp), (∀ op ∈ ops, op.Valid (drawCfgOf e lg wg fz) ∧ OpB (drawCfgOf e lg wg fz) op) →
+      World.SafeRun (drawCfgOf e lg wg fz) (World.init w h) ops →
+      (after (drawCfgOf e lg wg fz) (renderCfgOf e tc fit fit0) w h e0 ops).e.malformed = [] ∧
+        (after (drawCfgOf e lg wg fz) (renderCfgOf e tc fit fit0) w h e0 ops).e.st = .ground :=
+  fun e he hn lg wg fz tc fit fit0 hwg hfit w h hs e0 hg hq hw hh ops hv hsafe =>
+    cl_output_wellformed e (db_cornerLike' e he hn) lg wg fz tc fit fit0 hwg hfit w h hs e0 hg hq hw hh ops hv hsafe
 
 /-! ### C09: cursor addressing is accepted by the strict tokenizer for ALL positions -/
 
@@ -636,18 +783,89 @@ theorem cygwin_corner_bytes (lg wg fz tc : Bool) (fit fit0 : Nat → Nat) (hfit 
     CornerTrickFx (drawCfgOf Gen.e05 lg wg fz) (renderCfgOf Gen.e05 tc fit fit0) :=
   ti_corner_trick_bytes Gen.e05 db_corner_caps.2.2.1 db_corner_caps.2.2.2 lg wg fz tc fit fit0 hfit
 
-/-- … and the whole trick as the model performs it (Show on a 4×2 cygwin screen with `x` set in the bottom-right cell and `a`
-left of it): the emulator shows both, the cursor ends at home, nothing scrolled (row 0 still blank), no complaint -/
+/-! ### non-vacuity of the `CornerLike` history theorems: cygwin, an actual write to the bottom-right cell -/
+
 def rcCyg : RenderCfg := renderCfgOf Gen.e05 false (fun _ => 2^32) (fun _ => 2^32)
 def dcCyg : DrawCfg := drawCfgOf Gen.e05 true false true
-def bCyg : BWorld :=
-  (after dcCyg rcCyg 4 2 e0Demo [.setContent 2 1 0x61 [] {}, .setContent 3 1 0x78 [] { attrs := 1 }]).step dcCyg rcCyg .show
+/-- `a` in column 2 of the last row, a bold `x` in the bottom-right cell of a 4×2 screen -/
+def opsCyg : List ScrOp := [.setContent 2 1 0x61 [] {}, .setContent 3 1 0x78 [] { attrs := 1 }]
+def bCyg : BWorld := (after dcCyg rcCyg 4 2 e0Demo opsCyg).step dcCyg rcCyg .show
+
+theorem e05_mem : Gen.e05 ∈ Gen.db := by simp [Gen.db]
+theorem e05_name : Gen.e05.name ∈ cornerNames := by decide
+
+theorem fitCyg : FitOk rcCyg := by
+  intro _ col
+  have : Render.nColors rcCyg = 8 := by decide
+  have e : rcCyg.fit col = 2^32 := rfl
+  rw [this, e]; omega
+
+theorem opsCyg_ok : ∀ op ∈ opsCyg, op.Valid dcCyg ∧ OpB dcCyg op := by
+  intro op hop
+  simp only [opsCyg, List.mem_cons, List.not_mem_nil, or_false] at hop
+  rcases hop with rfl | rfl
+  · exact ⟨by simp [ScrOp.Valid, attrInvalid], by simp, rfl⟩
+  · exact ⟨by simp [ScrOp.Valid, attrInvalid], by simp, rfl⟩
+
+/-- Layer A's side condition along this history: two columns at least, no locked cell in the last row at the Show -/
+theorem opsCyg_safe : World.SafeRun dcCyg (World.init 4 2) (opsCyg ++ [.show]) :=
+  ⟨trivial, trivial, cornerSafe_of_B (by decide +kernel), trivial⟩
+
+/-- every hypothesis of `db_show_faithful_bytes_corner` holds for this world -/
+example : DisplaysBytes dcCyg rcCyg bCyg :=
+  db_show_faithful_bytes_corner Gen.e05 e05_mem e05_name true false true false _ _ (fun h => absurd h (by decide)) fitCyg 4 2
+    (by unfold SizeOk TParm.maxInt64; omega) e0Demo ⟨rfl, rfl, rfl, rfl, rfl, rfl, rfl, rfl⟩ (quiet_init _ _) rfl rfl opsCyg
+    opsCyg_ok opsCyg_safe (Or.inl (by decide +kernel))
 
 set_option maxRecDepth 100000 in
+/-- … and what the emulator shows (kernel evaluation of the emulator on the bytes of the model): the trick is in use, the bold `x`
+is in the bottom-right cell, `a` left of it, the cursor ended at home, nothing scrolled (row 0 still blank), no complaint -/
 example : dcCyg.cornerTrick = true ∧
     (bCyg.e.grid.get 3 1).runes = [0x78] ∧ (bCyg.e.grid.get 3 1).pen = { bold := true } ∧ (bCyg.e.grid.get 3 1).garbage = false ∧
     (bCyg.e.grid.get 2 1).runes = [0x61] ∧ (bCyg.e.grid.get 2 1).pen = {} ∧ (bCyg.e.grid.get 2 1).garbage = false ∧
     (bCyg.e.grid.get 0 0).runes = [32] ∧ bCyg.e.pendingWrap = false ∧ bCyg.e.malformed = [] := by decide +kernel
+
+/-- a later Show that repaints ONLY the bottom-right cell, next to a wide rune that covers column `w-2`: the trick writes `y` over
+the right half of `世`, pushes it right with `ich1` and repaints the wide rune from its start column (`cornerPx`) -/
+def opsCyg2 : List ScrOp :=
+  [.setContent 1 1 0x4e16 [] {}, .setContent 3 1 0x78 [] { attrs := 1 }, .show, .setContent 3 1 0x79 [] { attrs := 4 }]
+def bCyg2 : BWorld := (after dcCyg rcCyg 4 2 e0Demo opsCyg2).step dcCyg rcCyg .show
+
+theorem opsCyg2_ok : ∀ op ∈ opsCyg2, op.Valid dcCyg ∧ OpB dcCyg op := by
+  intro op hop
+  simp only [opsCyg2, List.mem_cons, List.not_mem_nil, or_false] at hop
+  rcases hop with rfl | rfl | rfl | rfl
+  · exact ⟨by simp [ScrOp.Valid, attrInvalid], by simp, rfl⟩
+  · exact ⟨by simp [ScrOp.Valid, attrInvalid], by simp, rfl⟩
+  · exact ⟨trivial, trivial⟩
+  · exact ⟨by simp [ScrOp.Valid, attrInvalid], by simp, rfl⟩
+
+theorem opsCyg2_safe : World.SafeRun dcCyg (World.init 4 2) (opsCyg2 ++ [.show]) :=
+  ⟨trivial, trivial, cornerSafe_of_B (by decide +kernel), trivial, cornerSafe_of_B (by decide +kernel), trivial⟩
+
+example : DisplaysBytes dcCyg rcCyg bCyg2 :=
+  db_show_faithful_bytes_corner Gen.e05 e05_mem e05_name true false true false _ _ (fun h => absurd h (by decide)) fitCyg 4 2
+    (by unfold SizeOk TParm.maxInt64; omega) e0Demo ⟨rfl, rfl, rfl, rfl, rfl, rfl, rfl, rfl⟩ (quiet_init _ _) rfl rfl opsCyg2
+    opsCyg2_ok opsCyg2_safe (Or.inl (by decide +kernel))
+
+set_option maxRecDepth 100000 in
+/-- the second Show wrote the corner trick and nothing else (between the two cursor parkings of a terminal without `civis`: `cup 2;3`,
+style, `y`, `cup 2;3`, `CSI @`, `cup 2;2`, style, `世`, `cup 1;1`), and the emulator shows the reverse-video `y` bottom-right, the wide
+rune intact, the cursor parked in the bottom-right cell with no wrap pending -/
+example : (bCyg2.e.grid.get 3 1).runes = [0x79] ∧ (bCyg2.e.grid.get 3 1).pen = { reverse := true } ∧
+    (bCyg2.e.grid.get 3 1).garbage = false ∧
+    (bCyg2.e.grid.get 1 1).runes = [0x4e16] ∧ (bCyg2.e.grid.get 2 1).cont = true ∧ (bCyg2.e.grid.get 1 1).garbage = false ∧
+    (bCyg2.e.grid.get 0 1).runes = [32] ∧ (bCyg2.e.grid.get 0 0).runes = [32] ∧
+    (bCyg2.e.cx, bCyg2.e.cy) = (3, 1) ∧ bCyg2.e.pendingWrap = false ∧ bCyg2.e.malformed = [] ∧
+    ((after dcCyg rcCyg 4 2 e0Demo opsCyg2).wd.sw.step dcCyg .show).2 =
+      [.goto 4 2, .goto 2 1, .setPen { attrs := 4 }, .put [0x79] 1, .goto 2 1, .insertChar,
+       .goto 1 1, .setPen {}, .put [0xe4, 0xb8, 0x96] 2, .goto 0 0, .goto 4 2] := by decide +kernel
+
+/-- Sync on the same history: every hypothesis of `db_sync_faithful_bytes_corner` holds -/
+example : DisplaysBytes dcCyg rcCyg ((after dcCyg rcCyg 4 2 e0Demo opsCyg2).step dcCyg rcCyg .sync) :=
+  db_sync_faithful_bytes_corner Gen.e05 e05_mem e05_name true false true false _ _ (fun h => absurd h (by decide)) fitCyg 4 2
+    (by unfold SizeOk TParm.maxInt64; omega) e0Demo ⟨rfl, rfl, rfl, rfl, rfl, rfl, rfl, rfl⟩ (quiet_init _ _) rfl rfl opsCyg2
+    opsCyg2_ok ⟨trivial, trivial, cornerSafe_of_B (by decide +kernel), trivial, cornerSafe_of_B (by decide +kernel), trivial⟩
 
 /-- aixterm: `op` (`CSI 32 m CSI 40 m`) sets green on black, and `penOf` says so: a style with `ColorReset` as foreground -/
 def rcAix : RenderCfg := renderCfgOf Gen.e00 false (fun _ => 2^32) (fun _ => 2^32)
